@@ -27,11 +27,11 @@ func init() {
 }
 
 type agentInfo struct {
-	typeName                                 string
-	name, project, user, srcDir, dirName     string
-	fsGlobal                                 string
-	ok                                       bool
-	pos                                      token.Pos
+	typeName                             string
+	name, project, user, srcDir, dirName string
+	fsGlobal                             string
+	ok                                   bool
+	pos                                  token.Pos
 }
 
 func runC16(c *Ctx) {
@@ -458,9 +458,56 @@ func c16Flow(c *Ctx) {
 			for root.Parent() != nil {
 				root = root.Parent()
 			}
+			// the publishing call may sit in a helper that the walk callback calls once: its argument terms are then
+			// rewritten into the callback's context (parameter -> term of the actual argument)
+			cb, cbCall := fn, cs
+			subst := func(ts []string) []string { return ts }
+			if fn.Parent() == nil && fn != install {
+				var sites []callSite
+				for _, g := range llmFuncs(L) {
+					for _, cs2 := range callsIn(g) {
+						if cs2.common.StaticCallee() == fn {
+							sites = append(sites, cs2)
+						}
+					}
+				}
+				if len(sites) == 1 && sites[0].fn.Parent() != nil {
+					outer := sites[0]
+					cb, cbCall = outer.fn, outer
+					c.seen(fnName(cb))
+					s3 := newSym(L, map[string]bool{})
+					s3.stack[install] = true
+					type rep struct {
+						re   *regexp.Regexp
+						vals []string
+					}
+					var reps []rep
+					for i, p := range fn.Params {
+						if i < len(outer.common.Args) {
+							reps = append(reps, rep{regexp.MustCompile(`param:` + regexp.QuoteMeta(p.Name()) + `\b`), s3.eval(outer.common.Args[i])})
+						}
+					}
+					subst = func(ts []string) []string {
+						for _, r := range reps {
+							var next []string
+							for _, t := range ts {
+								if !r.re.MatchString(t) {
+									next = append(next, t)
+									continue
+								}
+								for _, v := range r.vals {
+									next = append(next, r.re.ReplaceAllLiteralString(t, v))
+								}
+							}
+							ts = uniq(next)
+						}
+						return ts
+					}
+				}
+			}
 			walked := ""
-			if len(fn.Params) > 0 && fn.Parent() != nil {
-				walked = "param:" + fn.Params[0].Name()
+			if len(cb.Params) > 0 && cb.Parent() != nil {
+				walked = "param:" + cb.Params[0].Name()
 			}
 			srcDir := "agent.SkillsSrcDir(" + ag + ")"
 			rel := "Rel#0(" + srcDir + ", " + walked + ")"
@@ -468,7 +515,7 @@ func c16Flow(c *Ctx) {
 			for sp := range skillPaths {
 				wantDirs[strings.TrimSuffix(sp, "))")+", Dir("+rel+")))"] = true
 			}
-			dirs := s.eval(cs.arg(0))
+			dirs := subst(s.eval(cs.arg(0)))
 			okDir := len(dirs) > 0
 			for i := range dirs {
 				dirs[i] = normTerm(dirs[i])
@@ -478,13 +525,13 @@ func c16Flow(c *Ctx) {
 			}
 			c.check(okDir && len(uniq(dirs)) == len(wantDirs), "C16.5", where+":target-dir", L.pos(cs.instr.Pos()),
 				"every file is installed under <base>/<skill name>/<its directory inside the embedded tree>", "target directory terms: "+strings.Join(uniq(dirs), " | "))
-			names := s.eval(cs.arg(1))
+			names := subst(s.eval(cs.arg(1)))
 			for i := range names {
 				names[i] = normTerm(names[i])
 			}
 			c.check(len(names) == 1 && names[0] == "Base("+rel+")", "C16.3", where+":file-name", L.pos(cs.instr.Pos()),
 				"the installed file keeps its name from the embedded tree", "file name term: "+strings.Join(names, " | "))
-			content := s.eval(cs.arg(2))
+			content := subst(s.eval(cs.arg(2)))
 			for i := range content {
 				content[i] = normTerm(content[i])
 			}
@@ -494,9 +541,9 @@ func c16Flow(c *Ctx) {
 
 			// the callback is the WalkDir callback over (SkillsFS, SkillsSrcDir)
 			okWalk := false
-			if fn.Parent() != nil {
-				for _, w := range findCalls(fn.Parent(), "io/fs.WalkDir") {
-					if mc, ok := resolve(w.arg(2)).(*ssa.MakeClosure); ok && mc.Fn == fn {
+			if cb.Parent() != nil {
+				for _, w := range findCalls(cb.Parent(), "io/fs.WalkDir") {
+					if mc, ok := resolve(w.arg(2)).(*ssa.MakeClosure); ok && mc.Fn == cb {
 						s2 := newSym(L, map[string]bool{})
 						a0, a1 := s2.eval(w.arg(0)), s2.eval(w.arg(1))
 						if len(a0) == 1 && len(a1) == 1 && normTerm(a0[0]) == "agent.SkillsFS("+ag+")" && normTerm(a1[0]) == srcDir {
@@ -507,17 +554,17 @@ func c16Flow(c *Ctx) {
 					}
 				}
 			}
-			c.check(okWalk, "C16.3", where+":walk-root", L.pos(fn.Pos()), "the callback is the fs.WalkDir callback over (agent.SkillsFS(), agent.SkillsSrcDir())", "WalkDir arguments evaluated")
+			c.check(okWalk, "C16.3", where+":walk-root", L.pos(cb.Pos()), "the callback is the fs.WalkDir callback over (agent.SkillsFS(), agent.SkillsSrcDir())", "WalkDir arguments evaluated")
 
 			// nil returns of the callback: only for directories or after a successful install
 			isDirEdges := []*ssa.BasicBlock{}
-			for _, b := range fn.Blocks {
+			for _, b := range cb.Blocks {
 				for _, in := range b.Instrs {
 					call, ok := in.(*ssa.Call)
 					if !ok || !call.Common().IsInvoke() || call.Common().Method.Name() != "IsDir" {
 						continue
 					}
-					if len(fn.Params) < 2 || resolve(call.Common().Value) != ssa.Value(fn.Params[1]) {
+					if len(cb.Params) < 2 || resolve(call.Common().Value) != ssa.Value(cb.Params[1]) {
 						continue
 					}
 					for _, r := range *call.Referrers() {
@@ -528,12 +575,12 @@ func c16Flow(c *Ctx) {
 				}
 			}
 			var okInstall *ssa.BasicBlock
-			if call := cs.value(); call != nil {
+			if call := cbCall.value(); call != nil {
 				for _, t := range nilTestsOf(errorResult(call)) {
 					okInstall = t.onNil
 				}
 			}
-			for _, r := range returnsOf(fn) {
+			for _, r := range returnsOf(cb) {
 				if len(r.Results) == 0 {
 					continue
 				}
@@ -555,6 +602,30 @@ func c16Flow(c *Ctx) {
 		}
 	}
 	c.floor("C16.3", "call sites of the publishing function", nPub, 1)
+	// a helper between the callback and the publishing function reports success only after the publishing call succeeded
+	for _, fn := range llmFuncs(L) {
+		if fn.Parent() != nil || fn == install || pubFns[fn] {
+			continue
+		}
+		for _, cs := range callsIn(fn) {
+			callee := cs.common.StaticCallee()
+			if callee == nil || !pubFns[callee] || cs.value() == nil || errorResultIndex(fn) < 0 {
+				continue
+			}
+			var okInstall *ssa.BasicBlock
+			for _, t := range nilTestsOf(errorResult(cs.value())) {
+				okInstall = t.onNil
+			}
+			for _, r := range returnsOf(fn) {
+				last := r.Results[len(r.Results)-1]
+				if !isNilConst(last) && !knownNilAt(last, r.Block()) {
+					continue
+				}
+				c.check(okInstall != nil && (okInstall == r.Block() || okInstall.Dominates(r.Block())), "C16.3", fnName(fn)+":skip-return", L.pos(r.Pos()),
+					"a helper of the walk callback reports success only after installing the file", fmt.Sprintf("return in block %d", r.Block().Index))
+			}
+		}
+	}
 
 	// content parameter reaches Write unmodified
 	for fn := range pubFns {
